@@ -45,6 +45,7 @@ class NumpySerializedList(collections.UserList):
         return len(self._addr)
 
     def __getitem__(self, idx):
+        idx = int(idx)
         if idx < 0:
             idx += len(self)
             if idx < 0:
@@ -2807,6 +2808,8 @@ class ConcatenateDataset(Dataset):
         """
         if isinstance(item, numbers.Integral):
             _item = item
+            # numpy integers have a fixed width (np.int8(-1) + 300 overflows)
+            item = int(item)
             if item < 0:
                 item = item + len(self)
                 if item < 0:
@@ -3274,6 +3277,9 @@ class BatchDataset(Dataset):
 
     def __getitem__(self, item):
         if isinstance(item, numbers.Integral):
+            # numpy integers have a fixed width: item * batch_size could
+            # overflow silently (e.g. np.uint8(10) * 32).
+            item = int(item)
             if item < 0:
                 # only touch len when necessary
                 item = item + len(self)
